@@ -24,7 +24,8 @@ META = dict(
               "text (non-numeric, empty, absurdly large count); a cut inside a line (prefix of 1 character, 25 / 50 / 60 / 70 / 80 / 90 % and all but "
               "the last character; 3 positions for fixtures longer than 30 lines) and one deleted / duplicated / swapped line, both at 10 line positions spread over the "
               "file; explicit and name-derived format selection",
-        thorough="more fixtures per format, corruption of every k-th token"),
+        thorough="the first 400 lines of every fixture (quick: 60): a cut at each of these line boundaries, in-line cuts and line "
+                 "mutations at every line instead of 10 sampled ones"),
     outside=["binary garbage, character substitutions outside numeric fields, mutations of several lines at once; a number cut "
              "in the middle is modelled as an unconstrained other number (over-approximation; confirmed by replay)",
              "unbounded termination (a step budget bounds every path)", "the full 11 MB corpus at every cut point"],
